@@ -633,7 +633,7 @@ func drawStream() *hx.Stream {
 	}
 	n := 900
 	if cfg.Thorough() {
-		n = 18000
+		n = 50000
 	}
 	for i := 0; i < n; i++ {
 		w := genWidget(cfg.Rand.Intn(3))
